@@ -176,8 +176,12 @@ void EpollFdEvent::OnEventCallback(uint32_t events, void *obj)
 
     //! 要先复制一份，因为在for中很可能会改动到d->fd_events，引起迭代器失效问题
     auto tmp = d->fd_events;
-    for (auto event : tmp)
-        event->onEvent(tbox_events);
+    for (auto event : tmp) {
+        //! 前面的回调可能已将后面的事件 disable() 或 delete 了，这种事件不能再回调
+        auto &curr_events = d->fd_events;
+        if (std::find(curr_events.begin(), curr_events.end(), event) != curr_events.end())
+            event->onEvent(tbox_events);
+    }
 
     if (events)
         LogWarn("unhandle events:%08X, fd:%d", events, d->fd);
